@@ -326,7 +326,7 @@ pub enum Obs {
     Panic(String),
 }
 
-fn comm_id(name: &str, names: &[String]) -> usize {
+pub fn comm_id(name: &str, names: &[String]) -> usize {
     names.iter().position(|c| c == name).unwrap_or(999)
 }
 
@@ -349,7 +349,7 @@ pub fn parse_inline(s: &str, comms: &[String]) -> AmountObs {
     m
 }
 
-fn amount_obs(a: &report::Amount, comms: &[String]) -> AmountObs {
+pub fn amount_obs(a: &report::Amount, comms: &[String]) -> AmountObs {
     let mut m = AmountObs::new();
     for (c, v) in a.clone().into_values() {
         m.insert(comm_id(c.as_str(), comms), v);
@@ -357,7 +357,7 @@ fn amount_obs(a: &report::Amount, comms: &[String]) -> AmountObs {
     m
 }
 
-fn eval_code(s: &str) -> u8 {
+pub fn eval_code(s: &str) -> u8 {
     match s {
         "UnmatchingOperation" => 1,
         "UnmatchingCommodities" => 2,
@@ -368,6 +368,19 @@ fn eval_code(s: &str) -> u8 {
         "PostingAmountRequired" => 7,
         "SingleAmountRequired" => 8,
         _ => 0,
+    }
+}
+
+/// InternError kind inside a Debug rendering: 1 AlreadyCanonical, 2 AlreadyAlias, 3 ConflictingAlias
+fn intern_code(dbg: &str) -> u8 {
+    if dbg.contains("AlreadyCanonical") {
+        1
+    } else if dbg.contains("AlreadyAlias") {
+        2
+    } else if dbg.contains("ConflictingAlias") {
+        3
+    } else {
+        0
     }
 }
 
@@ -557,8 +570,8 @@ pub fn run_process_ext(
                     "ZeroAmountWithExchange" => ErrObs::ZeroAmountWithExchange,
                     "ZeroExchangeRate" => ErrObs::ZeroExchangeRate,
                     "ExchangeWithAmountCommodity" => ErrObs::ExchangeWithAmountCommodity,
-                    "InvalidAccount" => ErrObs::InvalidAccount(if dbg.contains("AlreadyCanonical") { 1 } else { 2 }),
-                    "InvalidCommodity" => ErrObs::InvalidCommodity(if dbg.contains("AlreadyCanonical") { 1 } else { 2 }),
+                    "InvalidAccount" => ErrObs::InvalidAccount(intern_code(&dbg)),
+                    "InvalidCommodity" => ErrObs::InvalidCommodity(intern_code(&dbg)),
                     _ => ErrObs::Other(dbg.clone()),
                 };
                 Obs::Err { entry, err, text: dbg }
